@@ -20,6 +20,7 @@ func init() {
 func runC12(c *Ctx) {
 	p := c.P
 	s := p.Selectors()
+	s.checkOrderedOrderComplete(c)
 	shut := s.shutdownFn()
 
 	// the function building the reverse-dependency map: returns map[string]map[string]*Process
@@ -89,6 +90,28 @@ func runC12(c *Ctx) {
 		if n == 0 {
 			c.Bad(rRev, p.FuncKey(f)+":lookup", FirstPos(p, f), "the function does not test whether the dependency is running")
 		}
+		// every registered process and every one of its depends_on entries is examined: the iterations are left
+		// only when they are exhausted (no break / return out of the loops)
+		early := ""
+		for _, lp := range NaturalLoops(f) {
+			for b := range lp.Blocks {
+				if b == lp.Header {
+					continue
+				}
+				for _, sc := range b.Succs {
+					if !lp.Blocks[sc] {
+						early = "a block of " + p.FuncKey(f)
+						for i := len(b.Instrs) - 1; i >= 0; i-- {
+							if b.Instrs[i].Pos().IsValid() {
+								early = p.Pos(b.Instrs[i].Pos())
+								break
+							}
+						}
+					}
+				}
+			}
+		}
+		c.Check(early == "", rRev, p.FuncKey(f)+":no-early-exit", FirstPos(p, f), "the iterations run to exhaustion", "an iteration over the registered processes or over depends_on is left early (break/return at "+early+"): dependents recorded after that point are missing, so a dependency is stopped while such a dependent is alive")
 		// the dependent is recorded under its registry (replica) name
 		for _, in := range FindInstrs(f, func(in ssa.Instruction) bool {
 			mu, ok := in.(*ssa.MapUpdate)
@@ -140,7 +163,7 @@ func runC12(c *Ctx) {
 	wgWait, wgAdd, wgDone := wgMethod(p, "Wait"), wgMethod(p, "Add"), wgMethod(p, "Done")
 	nG := 0
 	for _, f := range p.FuncsOfPkg("app") {
-		if !s.IsRunnerMethod(f) || f.Parent() == nil || !p.reachedFrom(f, shut) {
+		if f.Parent() == nil || !p.reachedFrom(f, shut) {
 			continue
 		}
 		// closures that look up the reverse-dependency map (free variable of that map type)
@@ -272,7 +295,7 @@ func runC12(c *Ctx) {
 	// ------------------------------------------------------------------ (4) shared with C03: stop then wait
 	rJoin := c.Rule("ordered-stop-then-wait", "in the ordered-shutdown goroutine the success edge of the stop is followed on every path by a completion wait of the stopped instance")
 	for _, f := range p.FuncsOfPkg("app") {
-		if !s.IsRunnerMethod(f) || f.Parent() == nil || !p.reachedFrom(f, shut) {
+		if f.Parent() == nil || !p.reachedFrom(f, shut) {
 			continue
 		}
 		usesRev := false
